@@ -49,3 +49,37 @@ package accumulated_scenario_filters
 // found is < len(ts)" (in particular len(ts) > 0) is exactly insertWithoutIncreasingListSize's
 // precondition and is NOT guaranteed by orderedInsert itself (replayed: orderedInsert([]string{}, "x",
 // true, cmp) panics with index out of range [0] with length 0).
+
+// ---- greedyMatchRequirements (C05) ----------------------------------------------------------------
+// C05: "scenario filters ... must only prune hopeless scenarios". The GPU filters answer through this
+// greedy matcher. capv(f, k): the (assumed pure) answer of the capacity callback f for holder k.
+//@ declare capv(f ref, k ref) real
+//@ func param:greedyMatchRequirements.capacity
+//@   pure
+//@   ensures [assumed] result == capv(fn, arg0)
+//@   note assumed: both call sites pass a closure that only reads a map (idle_gpus.go Filter$1, topology_aware_idle_gpus.go)
+//@ end
+
+// holders sorted descending by capacity (what the early `break` relies on)
+//@ define sortedDesc(holders []K, capacity func(K) float64) bool = forall a int, b int :: 0 <= a && a <= b && b < len(holders) ==> capv(capacity, holders[a]) >= capv(capacity, holders[b])
+//@ define someHolderFits(holders []K, capacity func(K) float64, r real) bool = exists i int :: 0 <= i && i < len(holders) && capv(capacity, holders[i]) >= r
+
+//@ func greedyMatchRequirements
+//@   props C05 C10
+//@   requires capacity != nil
+//@   pure
+//@   loop 1
+//@     invariant 0 - 1 <= rangeindex && rangeindex < len(requirements)
+//@     invariant rangeindex == 0 - 1 ==> (forall k in virtuallyAllocated :: false)
+//@     invariant forall i int :: 0 <= i && i <= rangeindex ==> requirements[i] != 0.0
+//@     invariant rangeindex >= 0 && len(requirements) == 1 ==> someHolderFits(holders, capacity, requirements[0])
+//@     decreases len(requirements) - rangeindex
+//@   loop 2
+//@     invariant 0 - 1 <= rangeindex && rangeindex < len(holders)
+//@     invariant forall i int :: 0 <= i && i <= rangeindex ==> capv(capacity, holders[i]) >= required && capv(capacity, holders[i]) - virtuallyAllocated[holders[i]] < required
+//@     decreases len(holders) - rangeindex
+//@   # nothing to place: never pruned
+//@   ensures [nothingRequiredNeverPruned] len(requirements) == 0 || requirements[0] == 0.0 ==> result
+//@   # single pending pod (the class C05 speaks about): pruned iff no holder has the capacity
+//@   ensures [singleTaskExact] len(requirements) == 1 && sortedDesc(holders, capacity) ==> (result <==> requirements[0] == 0.0 || someHolderFits(holders, capacity, requirements[0]))
+//@ end
